@@ -81,11 +81,14 @@ def rule_a(ctx, ix):
                where='%s:%d' % (mod.relpath, v.lineno))
     f = ix.func(ARR + '.compute_statistic')
     pm = parent_map(f.node)
+    # the Boolean array that is narrowed filter by filter, by its role: the target of the `&=` statements
+    keeps = {unparse(st.target) for st in walk_no_nested(f.node) if isinstance(st, ast.AugAssign) and isinstance(st.op, ast.BitAnd)}
+    keepvar = sorted(keeps)[0] if len(keeps) == 1 else 'keep'
     for flag, pat, what in (('finite', 'isfinite', 'finite values only'), ('positive', '> 0', 'strictly positive values only'),
                             ('mask is not None', 'mask', 'selected values only')):
         hit = False
         for st in walk_no_nested(f.node):
-            if isinstance(st, ast.AugAssign) and isinstance(st.op, ast.BitAnd) and unparse(st.target) == 'keep' and pat in unparse(st.value):
+            if isinstance(st, ast.AugAssign) and isinstance(st.op, ast.BitAnd) and unparse(st.target) == keepvar and pat in unparse(st.value):
                 gs = [unparse(g.test) for g, br in guard_chain(pm, st, f.node) if isinstance(g, ast.If) and br == 'body']
                 if gs and gs[0] == flag:
                     hit = True
@@ -124,7 +127,7 @@ def rule_a(ctx, ix):
             ok = reach is not None and cond.equivalent(cond.Or(pcn, pcp), reach)
         if ok:
             for st in walk_no_nested(f.node):
-                if isinstance(st, ast.AugAssign) and isinstance(st.op, ast.BitAnd) and unparse(st.target) == 'keep':
+                if isinstance(st, ast.AugAssign) and isinstance(st.op, ast.BitAnd) and unparse(st.target) == keepvar:
                     pcf = cond.path_condition(f.node, st)
                     ok = ok and pcf is not None and cond.implies(pcf, pcn)
         # ... and the table (or its entry) is subscripted with the statistic
@@ -341,7 +344,30 @@ def rule_d(ctx, ix):
     hist = [c for c in calls_in(f.node) if call_name(c) in ('histogram1d', 'histogram2d')]
     if len(hist) != 2:
         raise AnalysisError('Data.compute_histogram: the two binning calls are not recognised')
-    for var in ('xmax', 'ymax'):
+    # the limits by their role: range=(lo, hi) of the 1-d call, range=[(xlo, xhi), (ylo, yhi)] of the 2-d call
+    def range_of(c):
+        rng = [k.value for k in c.keywords if k.arg == 'range']
+        e = rng[0] if rng else None
+        if isinstance(e, ast.Name):
+            defs = [st for st in stmts if isinstance(st, ast.Assign) and unparse(st.targets[0]) == e.id and st.lineno <= c.lineno]
+            e = defs[-1].value if defs else e
+        return e
+    limits = {}
+    for c in hist:
+        e = range_of(c)
+        pairs = [e] if call_name(c) == 'histogram1d' else (list(e.elts) if isinstance(e, (ast.List, ast.Tuple)) else [])
+        names = []
+        for p_ in pairs:
+            if isinstance(p_, (ast.Tuple, ast.List)) and len(p_.elts) == 2 and all(isinstance(x, ast.Name) for x in p_.elts):
+                names.append((p_.elts[0].id, p_.elts[1].id))
+        limits[call_name(c)] = names
+    ok_shape = len(limits.get('histogram1d', [])) == 1 and len(limits.get('histogram2d', [])) == 2 and \
+        limits['histogram1d'][0] == limits['histogram2d'][0]
+    if not ok_shape:
+        his = ('xmax', 'ymax')
+    else:
+        his = (limits['histogram2d'][0][1], limits['histogram2d'][1][1])
+    for var in his:
         nudges = [st for st in stmts if isinstance(st, ast.AugAssign) and isinstance(st.target, ast.Name) and st.target.id == var]
         ctx.ob(R, '%s %s widened' % (f.construct, var), 'the upper limit is widened (the binning routine excludes its upper end)',
                len(nudges) == 1 and isinstance(nudges[0].op, ast.Add),
@@ -363,17 +389,13 @@ def rule_d(ctx, ix):
                       'the resolution of the limit, and values equal to the upper limit are dropped'
                       % (var, norm(later[0]) if later else ''), where=where(f, nd))
     for c in hist:
-        need = {'xmin', 'xmax'} if call_name(c) == 'histogram1d' else {'xmin', 'xmax', 'ymin', 'ymax'}
-        rng = [k.value for k in c.keywords if k.arg == 'range']
-        e = rng[0] if rng else None
-        if isinstance(e, ast.Name):
-            # the last assignment of that name before the call
-            defs = [st for st in stmts if isinstance(st, ast.Assign) and unparse(st.targets[0]) == e.id and st.lineno <= c.lineno]
-            e = defs[-1].value if defs else e
-        got = {x.id for x in ast.walk(e) if isinstance(x, ast.Name)} if e is not None else set()
-        ctx.ob(R, '%s %s range' % (f.construct, call_name(c)), 'the binning routine receives the (transformed, widened) limits',
-               need <= got,
-               detail='Data.compute_histogram no longer hands %s to %s (range=%s)' % (sorted(need), call_name(c), unparse(e) if e is not None else None),
+        e = range_of(c)
+        want = 1 if call_name(c) == 'histogram1d' else 2
+        got = limits.get(call_name(c), [])
+        ctx.ob(R, '%s %s range' % (f.construct, call_name(c)), 'the binning routine receives the (transformed, widened) limits as (lower, upper) pairs of locals',
+               len(got) == want and ok_shape,
+               detail='Data.compute_histogram no longer hands the %d (lower, upper) limit pair(s) it computed to %s (range=%s), or the 1-d and '
+                      '2-d calls use different x limits' % (want, call_name(c), unparse(e) if e is not None else None),
                where=where(f, c))
 
 
@@ -446,12 +468,41 @@ def rule_f(ctx, ix):
     def is_assign(e, name, value=None):
         return isinstance(e, ast.Assign) and len(e.targets) == 1 and unparse(e.targets[0]) == name and \
             (value is None or unparse(e.value) == value)
-    flag = 'use_subarray_slices'
+    # the locals by their roles
+    #   cut:   M = M[S]             (the mask reduced to the minimal sub-array; S is also reset to None and tested against None)
+    #   flag:  a local set to True and to False in this function, under which the cut runs
+    #   pad:   X[RS] = R            where RS is computed from S
+    sub, flag, padvar = 'subarray_slices', 'use_subarray_slices', 'result_slices'
+    nones = {st.targets[0].id for st in walk_no_nested(f.node) if isinstance(st, ast.Assign) and len(st.targets) == 1
+             and isinstance(st.targets[0], ast.Name) and isinstance(st.value, ast.Constant) and st.value.value is None}
+    cuts = [st for st in walk_no_nested(f.node) if isinstance(st, ast.Assign) and len(st.targets) == 1 and isinstance(st.targets[0], ast.Name)
+            and isinstance(st.value, ast.Subscript) and isinstance(st.value.value, ast.Name) and st.value.value.id == st.targets[0].id
+            and isinstance(st.value.slice, ast.Name) and st.value.slice.id in nones]
+    if len(cuts) == 1:
+        sub = cuts[0].value.slice.id
+        maskvar = cuts[0].targets[0].id
+        trues = {st.targets[0].id for st in walk_no_nested(f.node) if isinstance(st, ast.Assign) and isinstance(st.targets[0], ast.Name)
+                 and isinstance(st.value, ast.Constant) and st.value.value is True}
+        falses = {st.targets[0].id for st in walk_no_nested(f.node) if isinstance(st, ast.Assign) and isinstance(st.targets[0], ast.Name)
+                  and isinstance(st.value, ast.Constant) and st.value.value is False}
+        from .. import cond as _c
+        pc_cut = _c.path_condition(f.node, cuts[0], expand=False) or ('const', True)
+        cands = [n_ for n_ in sorted(trues & falses) if n_ in _c.atoms(pc_cut)]
+        if len(cands) == 1:
+            flag = cands[0]
+        for st in walk_no_nested(f.node):
+            if isinstance(st, ast.Assign) and len(st.targets) == 1 and isinstance(st.targets[0], ast.Name) and \
+                    any(isinstance(n_, ast.Name) and n_.id == sub for n_ in ast.walk(st.value)) and st.targets[0].id != sub and \
+                    any(isinstance(p_, ast.Assign) and isinstance(p_.targets[0], ast.Subscript) and unparse(p_.targets[0].slice) == st.targets[0].id
+                        for p_ in walk_no_nested(f.node)):
+                padvar = st.targets[0].id
+    else:
+        maskvar = 'mask'
     B = common.nodes_where(cfg, lambda e: is_assign(e, flag, 'False'))
-    reset = set(common.nodes_where(cfg, lambda e: is_assign(e, 'subarray_slices', 'None')))
+    reset = set(common.nodes_where(cfg, lambda e: is_assign(e, sub, 'None')))
     pad = common.nodes_where(cfg, lambda e: isinstance(e, ast.Assign) and isinstance(e.targets[0], ast.Subscript)
-                             and 'result_slices' in unparse(e.targets[0].slice) and unparse(e.value) == 'result')
-    cut = common.nodes_where(cfg, lambda e: is_assign(e, 'mask', 'mask[subarray_slices]'))
+                             and padvar in unparse(e.targets[0].slice) and isinstance(e.value, ast.Name))
+    cut = common.nodes_where(cfg, lambda e: is_assign(e, maskvar, '%s[%s]' % (maskvar, sub)))
     if not B or not pad or not cut:
         raise AnalysisError('Data.compute_statistic: sub-array flag (%d), cut (%d) or padding (%d) no longer recognised' % (len(B), len(cut), len(pad)))
     pm = parent_map(f.node)
